@@ -130,7 +130,7 @@ def run(cx):
         cx.lost('F-E', 'sign', 'expected one call of sign_raw', sf.loc())
         return
     a = [cs.c(x) for x in G.call_args(sf, PS, cbs[0])]
-    ok = a[1].startswith('sm3_hash(concat(array{try(compute_za(') and a[1].endswith(', $self.public_key.point)), $msg}))') and '$id' in a[1]
+    ok = a[1].startswith('sm3_hash([try(compute_za(') and a[1].endswith(', $self.public_key.point)), $msg])') and '$id' in a[1]
     cx.add('F-E', 'sign', ok, 'digest signed is SM3(ZA || msg), ZA over (id, own public key): %s' % a[1], G.where(sf, cbs[0]))
     cx.add('F-E-KEY', 'sign', a[2] == '$self.d', 'signing scalar passed to sign_raw is self.d: %s' % a[2], G.where(sf, cbs[0]))
     # default id
